@@ -10,7 +10,8 @@ use raft::StateRole;
 use std::collections::BTreeSet;
 
 pub enum Outcome {
-    Converged,
+    /// converged; the flag tells whether a MsgSnapshot travelled during the suffix
+    Converged(bool),
     Skipped(&'static str),
     Failed(String),
     Dead,
@@ -30,17 +31,23 @@ fn conf_in_force(w: &World) -> RefConf {
     RefConf::from_cs(cs)
 }
 
-pub fn run_suffix(w0: &World, salt: u64, ctx: &mut Ctx) -> Outcome {
+pub fn run_suffix(w0: &World, salt: u64, slow_snap: bool, ctx: &mut Ctx) -> Outcome {
     raft::verif::set_election_salt(salt);
-    let r = suffix(w0, ctx);
+    let r = suffix(w0, slow_snap, ctx);
     raft::verif::set_election_salt(0);
     r
 }
 
-fn suffix(w0: &World, ctx: &mut Ctx) -> Outcome {
+fn suffix(w0: &World, slow_snap: bool, ctx: &mut Ctx) -> Outcome {
     let mut w = w0.clone();
     w.in_prefix = true; // no budgets, explicit Ready handling
     let n = w.n();
+    let max_to = (0..n).map(|i| w.cfg(i).max_election_tick).max().unwrap();
+    // the slow snapshot channel needs more than two election timeouts per snapshot
+    let delay = 2 * max_to + 2;
+    if slow_snap {
+        w.slow_snap = delay;
+    }
     let force = conf_in_force(&w);
     let mut stopped: BTreeSet<usize> = BTreeSet::new();
     // 1. restart crashed nodes; decide who is shut down for good
@@ -71,14 +78,19 @@ fn suffix(w0: &World, ctx: &mut Ctx) -> Outcome {
     if !force.is_quorum(&running) {
         return Outcome::Skipped("no quorum of the configuration in force is running");
     }
-    let max_to = (0..n).map(|i| w.cfg(i).max_election_tick).max().unwrap();
-    let rounds = (n + 3) * max_to;
+    let rounds = (n + 3) * max_to + if slow_snap { 3 * delay } else { 0 };
 
     let mut round = |w: &mut World, stopped: &mut BTreeSet<usize>, ctx: &mut Ctx| -> bool {
-        // pending snapshots are reported done
+        if !w.slow_lane_round(ctx) {
+            return false;
+        }
+        // pending snapshots are reported done (those on the slow channel when they arrive)
         for i in 0..w.n() {
             let outs: Vec<u64> = w.live(i).map(|l| l.snap_out.clone()).unwrap_or_default();
             for to in outs {
+                if w.slow_lane.iter().any(|(f, t, _, _)| *f as usize == i + 1 && *t as u64 == to) {
+                    continue;
+                }
                 if !w.apply(&Action::ReportSnap(i as u8 + 1, to as u8, true), ctx) {
                     return false;
                 }
@@ -108,6 +120,7 @@ fn suffix(w0: &World, ctx: &mut Ctx) -> Outcome {
         // messages to stopped nodes go nowhere
         let dead: Vec<u8> = stopped.iter().map(|i| *i as u8 + 1).collect();
         w.net.retain(|(_, t), _| !dead.contains(t));
+        w.slow_lane.retain(|(_, t, _, _)| !dead.contains(t));
         true
     };
 
@@ -202,7 +215,7 @@ fn suffix(w0: &World, ctx: &mut Ctx) -> Outcome {
             ));
         }
     }
-    Outcome::Converged
+    Outcome::Converged(w.snap_msgs_delivered > 0)
 }
 
 /// State hook: runs the portfolio; reports C10 only if every scheduler fails.
@@ -210,15 +223,35 @@ pub fn live_hook(w: &World, ctx: &mut Ctx) {
     let mut failures = vec![];
     // violations of other properties met inside the suffix are not this hook's business
     let mut scratch = Ctx::new();
+    let mut snap_travelled = false;
     for salt in 0..3u64 {
         ctx.stat(Stat::LiveSuffixRuns);
-        match run_suffix(w, salt, &mut scratch) {
-            Outcome::Converged | Outcome::Skipped(_) => return,
+        match run_suffix(w, salt, false, &mut scratch) {
+            Outcome::Converged(s) => {
+                snap_travelled = s;
+                break;
+            }
+            Outcome::Skipped(_) => return,
             Outcome::Dead => {
                 // a panic inside the suffix is a C20 matter; the prefix spaces have their own check
                 return;
             }
             Outcome::Failed(why) => failures.push(why),
+        }
+    }
+    if failures.len() < 3 {
+        if !snap_travelled {
+            return;
+        }
+        // a snapshot is part of the recovery: the same suffix with MsgSnapshot on a slow side
+        // channel (more than two election timeouts per snapshot, everything else flowing)
+        failures.clear();
+        for salt in 0..3u64 {
+            ctx.stat(Stat::LiveSlowSnapRuns);
+            match run_suffix(w, salt, true, &mut scratch) {
+                Outcome::Converged(_) | Outcome::Skipped(_) | Outcome::Dead => return,
+                Outcome::Failed(why) => failures.push(format!("[snapshots on a slow channel] {}", why)),
+            }
         }
     }
     ctx.v(
